@@ -22,6 +22,11 @@ CLAIMS = {
             'TLC derives, from the walk of each zone, which <<shift, offset>> resolutions are allowed for a wall time (unique: that occurrence; overlap: the later one for Extended, either for Basic; gap: the offset before the gap) and checks the recorded run-length trace of forComponents() at the start of every recorded piece and at every wall-time breakpoint inside it; the harness sweeps every wall minute within +-200 min of every transition plus seeded random minutes (quick) or every wall minute of 2000..2049 (thorough), bisects result changes to the second and checks normalisation natively for every call.',
             'Trusted: zic pieces only select the windows (the verdict is TLC\'s on the spec\'s own pieces, which C01/C02 validate against zic); wall times within 16 h of the ends of the range are out of scope.',
             '§4.3, §6-C07'),
+    'C08': ('model_checking',
+            'TLA+ state machine of the processor cache (ZoneProc.tla) checked exhaustively by TLC; every model transition replayed into the real classes (ASan+UBSan build) with answer and projected state compared; random call histories recorded from the real code validated by ZoneProc_Trace.tla',
+            'TLC proves HistoryIndependent / NoNullDeref / ErrorsRepeat / ContentCoherent / OneSlotPerZone for every reachable state of the model (all histories of any length over 3 zones x 4 years x 6 operations, direct handles sharing a processor, managers with 1-2 slots) as state invariants quantified over every enabled call, and refutes the parameterisation that mirrors the code as found. Every edge of the model graph is then replayed in the real BasicZoneProcessor/ExtendedZoneProcessor/TimeZone/ZoneManager: each answer must equal a freshly constructed time zone\'s answer (the property itself) and the projected state (bound zone, cached year, filled flag, round-robin index) must equal the model\'s. Seeded random histories (cache sizes 1..4, more zones than slots, out-of-range and Jan-1 arguments) are checked the same way and validated as traces by TLC.',
+            'Trusted: hostshim; the driver reads private members through a private->public include (driver only); ASan/UBSan as crash/UB monitors. The Python ZoneSpecifier cache is not covered by this check yet.',
+            '§4.4, §6-C08'),
 }
 
 PLANNED = {
@@ -56,7 +61,7 @@ def main():
             'guard': 'ACETIME_VERIF',
             'enable': 'checks export ACETIME_VERIF=1 and compile /repo/src with -DACE_TIME_VERIF_HOOKS=1 (vf/common.py build_binary); without the macro the added lines are preprocessed away',
             'baseline_off_cmd': 'cd /repo && env -u ACETIME_VERIF /venv/bin/python -m pytest -ra -q -p no:cacheprovider --timeout=900 --continue-on-collection-errors tools/tests',
-            'source_commits': [],
+            'source_commits': ['13cbacb'],
             'add_only': True,
         },
         'engines': [
